@@ -144,6 +144,13 @@ def bypass(prog, chk):
             "the real-SVG shortcut (and the real_svg flag) applies only at the top level of the document; nested namespaced <svg> elements go through the dispatcher",
             "process_events applies the real-SVG shortcut at every nesting level: a namespaced <svg> as first child of an svgdx root passes all its siblings through unprocessed and marks the whole document as real SVG",
         )
+    ctx_fields = [f_["name"] for f_ in ((prog.adt(CTX).get("variants") or [{}])[0].get("fields") or [])]
+    if "real_svg" not in ctx_fields:
+        # the pass-through decision is not carried in a flag of the context (it may be returned, say): the flag-based
+        # reading of the two obligations below does not apply
+        chk.undecided("A10.real-svg-writers", "real_svg", pe.where(), "TransformerContext has no `real_svg` field: how postprocess learns that the document is passed through is not read here")
+        chk.undecided("A13.bypass", "postprocess:real-svg-edge", pe.where(), "TransformerContext has no `real_svg` field: what postprocess does for a passed-through document is not read here")
+        return
     w = {k for k in R.field_writers(prog, "real_svg", CTX) if not k.endswith("::default")}
     chk.ob(w == {PE}, "A10.real-svg-writers", "real_svg", pe.where(), "real_svg is written only by process_events", f"real_svg writers: {sorted(w)}")
     # postprocess: real_svg edge reaches only write_to
